@@ -43,9 +43,29 @@ def check(P: Project, R: Report) -> None:
     p = iss.positional_params()[-1]
     ia, io = run_paths(iss.node, fallible=False)
     R.need(io.ret, "is_supported has no return")
+    def _search_loop_form() -> bool:
+        """for x in SUPPORTED_VERSIONS: if x == p: return True …; return False — membership written as a search"""
+        body = [s_ for s_ in iss.node.body if not (isinstance(s_, ast.Expr) and isinstance(s_.value, ast.Constant))]
+        if len(body) != 2 or not isinstance(body[0], ast.For) or not isinstance(body[1], ast.Return) or body[0].orelse:
+            return False
+        loop, last = body
+        if ast.unparse(loop.iter) != "SUPPORTED_VERSIONS" or not isinstance(loop.target, ast.Name):
+            return False
+        if not (isinstance(last.value, ast.Constant) and last.value.value is False):
+            return False
+        x = loop.target.id
+        if len(loop.body) != 1 or not isinstance(loop.body[0], ast.If) or loop.body[0].orelse:
+            return False
+        i = loop.body[0]
+        t = ast.unparse(i.test)
+        if t not in (f"{x} == {p}", f"{p} == {x}"):
+            return False
+        return len(i.body) == 1 and isinstance(i.body[0], ast.Return) and isinstance(i.body[0].value, ast.Constant) and i.body[0].value.value is True
+
+    loop_form = _search_loop_form()
     for st, node in io.ret:
         txt = subst_text(node.value, st) if node.value is not None else "None"
-        R.ob("R1", "is_supported is membership of the value itself in SUPPORTED_VERSIONS", txt == f"{p} in SUPPORTED_VERSIONS", f"{iss.module.rel}:{node.lineno}",
+        R.ob("R1", "is_supported is membership of the value itself in SUPPORTED_VERSIONS", txt == f"{p} in SUPPORTED_VERSIONS" or loop_form, f"{iss.module.rel}:{node.lineno}",
              f"is_supported decides `{txt}`: the sanitiser accepts values other than the members of the list (the handler then acknowledges the raw request value)")
     R.ob("R1", "is_supported cannot fall off the end or raise", not io.normal and not io.exc, iss.where, "")
     cur = try_fold(P, P.module(A.MOD_VERSION), ast.Name(id="CURRENT_VERSION", ctx=ast.Load()))
@@ -93,9 +113,15 @@ def check(P: Project, R: Report) -> None:
         v = try_fold(P, hmod, node)
         if isinstance(v, str):
             return (v in supported), f"constant {v!r}"
+        # literals are read through flags (`ok = is_supported(v)` … `if ok:`)
+        lits_x = set(st.lits) | {an.origin(l).replace("<", "").replace(">", "") for l in st.lits}
         for lit in (f"ProtocolVersion.is_supported({term})", f"{term} in SUPPORTED_VERSIONS", f"is_version_supported({term})"):
-            if lit in st.lits:
+            if lit in lits_x:
                 return True, f"request value guarded by `{lit[:40]}…`"
+        # a value taken while iterating SUPPORTED_VERSIONS is a member by construction
+        d_ = an.defs.get(term)
+        if d_ is not None and d_[0].startswith("iter:") and d_[0][5:] in ("SUPPORTED_VERSIONS", "ProtocolVersion.SUPPORTED_VERSIONS", "tuple(SUPPORTED_VERSIONS)", "list(SUPPORTED_VERSIONS)"):
+            return True, "an element of SUPPORTED_VERSIONS (loop variable)"
         return False, f"`{an.origin(term)[:100]}` reaches the sink with no membership literal on the path (literals: {sorted(l[:60] for l in st.lits)})"
 
     for st, node in out.ret:
